@@ -49,7 +49,7 @@ ASSUMPTIONS = ["StepSound/OracleSound: each sympy rewrite recorded by sympy_simp
                "replaced by the script; all but the first 24 (quick) / 300 (thorough) scripts run main's two shell commands per file (sed, mv) in-process",
                "termination of the two fixed-point loops is not claimed (the model has fuel and reports whether the exit condition was reached; every run reached it)"]
 MODELLED = ["utils.py:get_unique_indexes", "utils.py:get_match_indexes", "duplicate_checker.py:main", "simplifier.py:do_sympy", "simplifier.py:check_results",
-            "simplifier.py:count_params", "simplifier.py:get_max_param", "simplifier.py:make_changes",
+            "simplifier.py:count_params", "simplifier.py:get_max_param",
             # the rewrites themselves are not modelled (StepSound is a hypothesis): a change there widens the row-by-row oracle run
             "simplifier.py:sympy_simplify", "simplifier.py:simplify_inv_subs", "simplifier.py:get_all_dup"]
 
